@@ -138,10 +138,16 @@ func queueLenInvariant(p *Prog, bufT *types.Named) (capacity int64, ok bool) {
 				g := false
 				for _, cd := range condsAt(b) {
 					cb, isCB := cd.V.(*ssa.BinOp)
-					if !isCB || !cd.True || cb.Op != token.LSS || bufField(cb.X) != "len" {
+					if !isCB || bufField(cb.X) != "len" {
 						continue
 					}
-					if k, isK := constInt(cb.Y); isK && k <= capacity {
+					k, isK := constInt(cb.Y)
+					if !isK {
+						continue
+					}
+					// len < k on the true edge, or len >= k on the false edge
+					if (cd.True && cb.Op == token.LSS && k <= capacity) || (!cd.True && cb.Op == token.GEQ && k <= capacity) ||
+						(cd.True && cb.Op == token.LEQ && k < capacity) || (!cd.True && cb.Op == token.GTR && k < capacity) {
 						g = true
 					}
 				}
@@ -153,10 +159,11 @@ func queueLenInvariant(p *Prog, bufT *types.Named) (capacity int64, ok bool) {
 				g := false
 				for _, cd := range condsAt(b) {
 					cb, isCB := cd.V.(*ssa.BinOp)
-					if !isCB || !cd.True {
+					if !isCB || !sameLoad(cb.X, bo.Y) || bufField(cb.Y) != "len" {
 						continue
 					}
-					if (cb.Op == token.LEQ || cb.Op == token.LSS) && sameLoad(cb.X, bo.Y) && bufField(cb.Y) == "len" {
+					// y <= len on the true edge, or y > len on the false edge
+					if (cd.True && (cb.Op == token.LEQ || cb.Op == token.LSS)) || (!cd.True && (cb.Op == token.GTR || cb.Op == token.GEQ && false)) {
 						g = true
 					}
 				}
@@ -224,7 +231,7 @@ func tagQueueRetire(p *Prog, f *ssa.Function, l *Loop) string {
 			}
 		}
 		if !dom {
-			return "a back edge of the loop (" + fnName(f)+" block "+latch.String() + ") does not pass advanceBuffer"
+			return "a back edge of the loop (" + fnName(f) + " block " + latch.String() + ") does not pass advanceBuffer"
 		}
 	}
 	// (b) validTag true only under pos < len
@@ -366,4 +373,127 @@ func strictPending(v ssa.Value, want bool) bool {
 		return (want && bo.Op == token.GTR) || (!want && bo.Op == token.LEQ)
 	}
 	return false
+}
+
+// queueCompacts (reported under C03 ROUTE): (*buffer).resetPosition drops the consumed tags whenever the queue is
+// in a legal state with something consumed — 0 < pos <= len <= cap(tag). Before a sub-directory is read readIfd
+// relies on it to make room: if the compaction is skipped for a legal state (a queue that is exactly full, say)
+// addTagBuffer finds no room and every out-of-line value of the sub-directory is silently dropped.
+func queueCompacts(p *Prog) string {
+	f := p.Func("exif2", "*buffer", "resetPosition")
+	if f == nil || len(f.Blocks) == 0 {
+		return "anchor resetPosition not resolved"
+	}
+	recvT, _ := f.Signature.Recv().Type().Underlying().(*types.Pointer)
+	var bufT *types.Named
+	if recvT != nil {
+		bufT, _ = recvT.Elem().(*types.Named)
+	}
+	if bufT == nil {
+		return "receiver type of resetPosition not resolved"
+	}
+	capacity, capOK := queueLenInvariant(p, bufT)
+	if !capOK {
+		return "the invariant len <= cap(tag) could not be derived from the stores of len"
+	}
+	truth := func(v ssa.Value) int {
+		bo, ok := v.(*ssa.BinOp)
+		if !ok {
+			return 0
+		}
+		xn, yn := bufField(bo.X), bufField(bo.Y)
+		xc, xIsC := constInt(bo.X)
+		yc, yIsC := constInt(bo.Y)
+		op := bo.Op
+		flip := map[token.Token]token.Token{token.LSS: token.GTR, token.GTR: token.LSS, token.LEQ: token.GEQ, token.GEQ: token.LEQ, token.EQL: token.EQL, token.NEQ: token.NEQ}
+		if (xIsC && !yIsC) || (xn == "len" && yn == "pos") {
+			xn, yn, xc, yc, xIsC, yIsC = yn, xn, yc, xc, yIsC, xIsC
+			op = flip[op]
+		}
+		_ = xc
+		switch {
+		case xn == "pos" && yIsC && yc == 0:
+			switch op {
+			case token.GTR, token.NEQ:
+				return 1
+			case token.EQL, token.LEQ:
+				return -1
+			}
+		case xn == "pos" && yn == "len":
+			switch op {
+			case token.LEQ:
+				return 1
+			case token.GTR:
+				return -1
+			}
+		case xn == "len" && yIsC:
+			switch op {
+			case token.LEQ:
+				if yc >= capacity {
+					return 1
+				}
+			case token.LSS:
+				if yc > capacity {
+					return 1
+				}
+			case token.GTR:
+				if yc >= capacity {
+					return -1
+				}
+			case token.GEQ:
+				if yc > capacity {
+					return -1
+				}
+			}
+		}
+		return 0
+	}
+	compacts := func(b *ssa.BasicBlock) bool {
+		for _, in := range b.Instrs {
+			s, ok := in.(*ssa.Store)
+			if !ok {
+				continue
+			}
+			fa, ok := s.Addr.(*ssa.FieldAddr)
+			if !ok || fieldName(fa.X.Type(), fa.Field) != "pos" {
+				continue
+			}
+			if c, ok := constInt(s.Val); ok && c == 0 {
+				return true
+			}
+		}
+		return false
+	}
+	seen := map[*ssa.BasicBlock]bool{}
+	why := ""
+	var walk func(b *ssa.BasicBlock)
+	walk = func(b *ssa.BasicBlock) {
+		if seen[b] || why != "" {
+			return
+		}
+		seen[b] = true
+		if compacts(b) || len(b.Instrs) == 0 {
+			return
+		}
+		switch t := b.Instrs[len(b.Instrs)-1].(type) {
+		case *ssa.Return:
+			why = "resetPosition can return (" + p.posStr(instrPos(t)) + ") without dropping the consumed tags although 0 < pos <= len <= cap(tag) held: the test that skips the compaction excludes a legal state of the queue"
+		case *ssa.If:
+			switch truth(t.Cond) {
+			case 1:
+				walk(b.Succs[0])
+			case -1:
+				walk(b.Succs[1])
+			default:
+				walk(b.Succs[0])
+				walk(b.Succs[1])
+			}
+		default:
+			for _, s := range b.Succs {
+				walk(s)
+			}
+		}
+	}
+	walk(f.Blocks[0])
+	return why
 }
